@@ -38,8 +38,27 @@ func main() {
 			w = bufio.NewWriter(f)
 		}
 		defer w.Flush()
-		for i := 0; i < *n; i++ {
-			c := g.Case(i)
+		var cases []*Case
+		switch *prof {
+		case "fallback":
+			cases = fallbackCases()
+		default:
+			for i := 0; i < *n; i++ {
+				switch *prof {
+				case "optx":
+					cases = append(cases, g.optCase(i))
+				case "dist":
+					cases = append(cases, g.distCase(i))
+				case "sequence", "concurrent":
+					cases = append(cases, g.multiCase(i, *prof))
+				case "extreme":
+					cases = append(cases, g.extremeCase(i))
+				default:
+					cases = append(cases, g.Case(i))
+				}
+			}
+		}
+		for _, c := range cases {
 			b, _ := json.Marshal(c)
 			w.Write(b)
 			w.WriteByte('\n')
